@@ -179,8 +179,12 @@ def scribble(res, k, pool_objs):
             node['__scribble__'] = 1
             how = 'dict.set'
     elif isinstance(node, set):
-        node.add('__scribble__')
-        how = 'set.add'
+        if alt and node:
+            node.pop()
+            how = 'set.pop'
+        else:
+            node.add('__scribble__')
+            how = 'set.add'
     elif isinstance(node, pt.EnzymeConfig):
         node.missed_cleavages += 1
         how = 'enzcfg'
